@@ -611,10 +611,25 @@ udp_header = Struct(
 #===============================================================================
 
 class DnsStringAdapter(Adapter):
+    # labels may contain dots and backslashes: they are written as \\. and \\\\ in the dotted form (RFC 4343 section 2.1),
+    # so that the dotted form splits back into the same labels
     def _decode(self, obj, context, path):
-        return u".".join(obj[:-1])
+        return u".".join(label.replace(u"\\", u"\\\\").replace(u".", u"\\.") for label in obj[:-1])
     def _encode(self, obj, context, path):
-        return obj.split(u".") + [u""]
+        labels, current, escaped = [], [], False
+        for ch in obj:
+            if escaped:
+                current.append(ch)
+                escaped = False
+            elif ch == u"\\":
+                escaped = True
+            elif ch == u".":
+                labels.append(u"".join(current))
+                current = []
+            else:
+                current.append(ch)
+        labels.append(u"".join(current))
+        return labels + [u""]
 
 class DnsNamesAdapter(Adapter):
     def _decode(self, obj, context, path):
